@@ -349,6 +349,37 @@ func runC08(r *mc.Run) {
 			}
 		}
 	}
+	// 9. every pair of exact-match options, each in every state (a comparison wired to a neighbouring option,
+	// or a check that stops at the first problem, needs two configured fields to show)
+	pstates := []string{"equal", "first", "last", "short", "long", "empty"}
+	pval := func(f optField, st string) []byte {
+		v := val(f)
+		switch st {
+		case "first":
+			v[0] ^= 1
+		case "last":
+			v[len(v)-1] ^= 0x80
+		case "short":
+			v = v[:len(v)-1]
+		case "long":
+			v = append(v, 7)
+		case "empty":
+			v = []byte{}
+		}
+		return v
+	}
+	for i, a := range optFields {
+		for _, b := range optFields[i+1:] {
+			for _, sa := range pstates {
+				for _, sb := range pstates {
+					o := &validate.Options{}
+					a.set(o, pval(a, sa))
+					b.set(o, pval(b, sb))
+					add(fmt.Sprintf("pairstates/%s=%s,%s=%s", a.name, sa, b.name, sb), raw0, o)
+				}
+			}
+		}
+	}
 	done := r.Parallel(len(cases), func(i int) {
 		c := cases[i]
 		if !r.Want(c.id) {
